@@ -57,7 +57,10 @@ pub fn gen_cfg(rng: &mut Prng, suite: SuiteId, mode: ModeKind, cap: usize) -> Cf
     // now and then a long string (crosses the 2-byte length prefix and HMAC block boundaries)
     let cap = if cap >= 100 && rng.chance(1, 40) { 70001 } else { cap };
     let info = rng.var_bytes(cap);
-    let (psk, psk_id) = if mode.has_psk() {
+    let (psk, psk_id) = if mode.has_psk() && rng.chance(1, 12) {
+        // the (permitted) empty bundle
+        (vec![], vec![])
+    } else if mode.has_psk() {
         let mut psk = rng.var_bytes(cap);
         if psk.is_empty() {
             psk = rng.rand_bytes(32);
@@ -795,7 +798,7 @@ pub fn gen_c08(rng: &mut Prng, run: u64, _t: &Tier) -> Vec<Ev> {
         }
         _ => {
             let mut p = cfg.psk.0.clone();
-            if rng.chance(1, 2) {
+            if !p.is_empty() && rng.chance(1, 2) {
                 let i = rng.below(p.len() as u64 * 8) as usize;
                 p[i / 8] ^= 1 << (i % 8);
             } else {
@@ -1184,6 +1187,35 @@ pub fn gen_c12(rng: &mut Prng, run: u64, _t: &Tier) -> Vec<Ev> {
         v.resize(l, 0);
         ev.push(Ev::DecodeProbe { suite, kind, bytes: b(v) });
         ev.push(Ev::WriteExactProbe { suite, kind, bytes: b(val.clone()), buflen: l });
+    }
+    // X25519: every 32-byte string is an accepted public / encapsulated key and must come back
+    // byte-identical, in particular the non-canonical ones (u >= p, bit 255 set, small order)
+    if kem == KemId::X25519 && kind != Kind::Tag {
+        let mut cat: Vec<Vec<u8>> = math::x25519_small_order();
+        for k in 0..19u8 {
+            let mut v = vec![0xFFu8; 32];
+            v[0] = 0xED + k;
+            v[31] = 0x7F;
+            cat.push(v.clone()); // p + k
+            v[31] = 0xFF;
+            cat.push(v); // p + k with bit 255 set
+        }
+        cat.push(vec![0xFF; 32]);
+        cat.push(vec![0x00; 32]);
+        for _ in 0..8 {
+            let mut v = rng.rand_bytes(32);
+            match rng.below(4) {
+                0 => v[31] |= 0x80,
+                1 => v[0] |= 7,   // low bits that clamping clears (private keys)
+                2 => v[31] |= 0xC0,
+                _ => {}
+            }
+            cat.push(v);
+        }
+        for v in cat {
+            ev.push(Ev::DecodeProbe { suite, kind, bytes: b(v.clone()) });
+            ev.push(Ev::WriteExactProbe { suite, kind, bytes: b(v), buflen: 32 });
+        }
     }
     // values that the worlds produce: keys from gen_keypair / encapsulated keys / tags of real seals
     if which == 2 || which == 3 {
